@@ -377,7 +377,7 @@ BASE9 = ['u8', 'u16', 'u32', 'i8', 'i16', 'i32', 'f32', 'p5', 'p11']
 THOROUGH = [(a, b) for a in BASE9 for b in BASE9] + \
     [('p%d' % n, 'u8') for n in range(1, 8)] + [('u8', 'p%d' % n) for n in range(1, 8)] + \
     [('p%d' % n, 'u16') for n in (1, 4, 9, 12, 15)] + [('u16', 'p%d' % n) for n in (1, 4, 9, 12, 15)] + \
-    [('p%d' % a, 'p%d' % b) for a in (1, 2, 4, 5) for b in (3, 6, 8, 10, 16)] + [('p20', 'p24'), ('p24', 'p20'), ('p7', 'u32'), ('u32', 'p7')] + \
+    [('p%d' % a, 'p%d' % b) for a in (1, 2, 4, 5) for b in (3, 6, 8, 10, 16)] + [('p7', 'u32'), ('u32', 'p7')] + \
     [('p8', 'p%d' % n) for n in (1, 2, 3, 4, 6, 7)] + [('p16', 'p%d' % n) for n in (3, 5, 8, 9, 11, 12, 13, 14)] + \
     [('p32', 'p%d' % n) for n in (5, 16)] + [('p%d' % n, 'p32') for n in (5, 16)] + [('p32', 'u8'), ('p32', 'u16'), ('u16', 'p32')]
 
@@ -392,7 +392,7 @@ for (a, b) in THOROUGH:
         UNITS.append(conv_unit(a, b, 'thorough'))
 
 META = dict(
-    not_covered=['packed 31 <-> 32 bit pairs (double-precision converter bodies on 32-bit symbolic values: 900 s time-out on every back end; not registered)',
+    not_covered=['packed 20 <-> 24 bit and 31 <-> 32 bit pairs (double-precision converter bodies on wide symbolic values: 900 s time-outs; not registered)',
                  'channel_converter_unsigned_impl generic double path and the <uintmax_t,D,false,true> specialisation: not selected for any provided channel pair (dispatch decided by g++ in the probe)',
                  'channel models that are references/proxies (packed_channel_reference etc.): channel_convert reads them through channel_traits<>::value_type, i.e. the value types verified here'],
     assumptions=['IEEE-754 binary32/binary64 round-to-nearest'],
